@@ -63,16 +63,24 @@ def docstring(d, numpy: bool, google: bool):
     return {"value": d.value, "parsed": secs}
 
 
-def node(n, numpy: bool, google: bool, depth=0):
+def node(n, numpy: bool, google: bool, depth=0, stack=()):
+    """`n.modules` / `.classes` / `.functions` / `.attributes` are read exactly as the tool reads them: they
+    include inherited members and imported names (griffe aliases).  An alias is followed to its target;
+    a target that is already on the current path (cyclic import) is cut to a leaf."""
     def kids(d):
         out = []
         for k in d:
             try:
                 c = d[k]
+                target_path = c.target_path if getattr(c, "is_alias", False) else c.path
                 if getattr(c, "is_alias", False):
-                    continue
-                out.append(node(c, numpy, google, depth + 1))
-            except Exception:  # noqa: BLE001  (unresolvable alias)
+                    _ = c.docstring                      # forces resolution; raises if unresolvable
+                if target_path in stack or depth > 12:
+                    out.append({"name": c.name, "is_class": bool(c.is_class), "docstring": docstring(c.docstring, numpy, google),
+                                "modules": [], "classes": [], "functions": [], "attributes": []})
+                else:
+                    out.append(node(c, numpy, google, depth + 1, stack + (target_path,)))
+            except Exception:  # noqa: BLE001  (unresolvable alias: the tool cannot descend into it either)
                 continue
         return out
     return {"name": n.name, "is_class": bool(n.is_class), "docstring": docstring(n.docstring, numpy, google),
